@@ -385,7 +385,7 @@ func (ex *Exec) recordViolation(model map[string]uint64, p *Predicted) {
 	vec := ex.buildVector(model)
 	vec.Predicted = p
 	vec.Notes = ex.evalNotes(model)
-	sig := ex.harness + "|" + p.Outcome + "|" + p.Label + p.Site
+	sig := ex.harness + "|" + p.Outcome + "|" + p.Label + p.Site + "|" + normMsg(p.Msg)
 	ex.viols.add(&Violation{vec: vec, sig: sig})
 }
 
